@@ -526,6 +526,62 @@ def mapped_default_items(ctx, i):
     ctx.case({"mapped-default": kind, "n": n_items, "depth2": depth2}, True)
 
 
+def sibling_bound_objects(ctx, i):
+    """Two or three sibling nested graphs that each BIND the same input name to their OWN mutable object (a collector
+    per sub-pipeline). Each inner node receives the very object bound on its graph (identity), mutates it, and the other
+    graphs' objects are untouched; also after add_nodes() on the enclosing graph, and on repeated runs."""
+    from hypergraph import AsyncRunner, FunctionNode, Graph, SyncRunner
+
+    rng = ctx.rng
+    rt.reset_program()
+    k = rng.randint(2, 3)
+    sinks = [[f"seed{j}"] for j in range(k)]
+    received = {}
+    wrappers = []
+    for j in range(k):
+        fid = f"sbo/w{j}"
+        fn = rt.make_function(f"w{j}", fid, [{"n": "item"}, {"n": "sink"}])
+        rt.KIND[fid] = "fn"
+
+        def beh(kw, _j=j):
+            received.setdefault(_j, []).append(kw["sink"])
+            kw["sink"].append(kw["item"])
+            return tuple(kw["sink"])
+
+        rt.BEH[fid] = beh
+        wrappers.append(Graph([FunctionNode(fn, name=f"w{j}", output_name=f"h{j}")], name=f"pipe{j}").bind(sink=sinks[j]).as_node())
+    rng.shuffle(wrappers)
+    g = Graph(wrappers, name="outer")
+    variant = rng.choice(["plain", "add_nodes"])
+    if variant == "add_nodes":
+        fx = rt.make_function("extra", "sbo/extra", [{"n": "item"}])
+        rt.KIND["sbo/extra"] = "fn"
+        rt.BEH["sbo/extra"] = lambda kw: ("extra", kw["item"])
+        g = g.add_nodes(FunctionNode(fx, name="extra", output_name="ex"))
+    case = {"program": f"{k} sibling nested graphs binding `sink` to their own list", "variant": variant}
+    for step in range(2):
+        kind = rng.choice(["sync", "async"])
+        try:
+            r = SyncRunner().run(g, {"item": f"it{step}"}) if kind == "sync" else asyncio.run(AsyncRunner().run(g, {"item": f"it{step}"}))
+        except Exception as e:  # noqa: BLE001
+            ctx.violation("C18:run-failed", f"sibling nested graphs with own bindings raised {e!r}", case)
+            return
+        ctx.obs["runs_checked"] += 1
+        ctx.obs["sibling_bound_object_runs"] += 1
+        for j in range(k):
+            got = received.get(j, [])
+            ctx.obs["identity_checked"] += 1
+            if len(got) != step + 1 or got[-1] is not sinks[j]:
+                whose = next((f"the object bound on pipe{m}" for m in range(k) if got and got[-1] is sinks[m]), "a copy / another object")
+                ctx.violation("C18:bound-value-copied", f"run {step} ({kind}, {variant}): the node of pipe{j} received {whose} instead of the object bound on its own graph", {**case, "step": step})
+                return
+            exp = [f"seed{j}"] + [f"it{t}" for t in range(step + 1)]
+            if sinks[j] != exp:
+                ctx.violation("C18:state-leaked-into-run", f"run {step} ({kind}, {variant}): the collector bound on pipe{j} holds {sinks[j]!r}, expected {exp!r}", {**case, "step": step})
+                return
+    ctx.case({"sibling-bound-objects": k, "variant": variant}, True)
+
+
 def bound_outside_selection(ctx, i):
     """A value bound for a parameter that ALSO has a signature default, on a node outside the graph-level selection
     (flat, or the graph used as a nested node): whenever that node runs it receives the very object that was bound -
@@ -634,6 +690,8 @@ def run(ctx):
             mapped_default_items(ctx, i)
         elif i % 12 == 5:
             derived_family_history(ctx, i)
+        elif i % 12 == 9:
+            sibling_bound_objects(ctx, i)
         elif i % 3 == 2:
             concurrent_async(ctx, i)
         else:
